@@ -213,10 +213,177 @@ func checkC15(r *Report, known []Finding) {
 			in.cls, in.mode, w, a, pat, got, want),
 			map[string]any{"class": in.cls, "mode": in.mode, "witness_hex": hexOf(w), "checker": a, "pattern": pat, "coregex": got, "regexp": want}, false)
 	}
+	// ---- regenerated tie for the class compiler: the byte-range sequences along all paths of the automaton the real compiler
+	// emitted must be LITERALLY the output of the Lean transliteration of compileCharClass (Cx.Utf8Range.classSeqs); then
+	// C15_class_language / C15_dumped_class_automaton_exact hold for that automaton and every byte string. Cheap (no rune sweep),
+	// so it also runs on a stream of generated multi-range classes around every encoding boundary.
+	{
+		tp := r.Tie("paths of the compiled class automaton == Lean transliteration of compileCharClass (Cx.Utf8Range.classSeqs), literally")
+		type pinst struct{ cls, mode, req string }
+		var pins []pinst
+		isClass := func(c string) bool {
+			re, err := syntax.Parse(c, syntax.Perl)
+			if err != nil {
+				return false
+			}
+			for re.Op == syntax.OpCapture {
+				re = re.Sub[0]
+			}
+			return re.Op == syntax.OpCharClass
+		}
+		var cls []string
+		for _, c := range classes {
+			if isClass(c) {
+				cls = append(cls, c)
+			}
+		}
+		bounds := []rune{0, 0x7F, 0x80, 0x7FF, 0x800, 0xFFF, 0x1000, 0xCFFF, 0xD000, 0xD7FF, 0xD800, 0xDFFF, 0xE000, 0xFFFF, 0x10000, 0x3FFFF, 0x40000, 0xFFFFF, 0x100000, 0x10FFFF}
+		ng := 500
+		if r.Tier == "thorough" {
+			ng = 6000
+		}
+		grng := NewRNG(r.Seed).Fork(0xC15)
+		pick := func() rune {
+			b := bounds[grng.Intn(len(bounds))]
+			switch grng.Intn(4) {
+			case 0:
+				return b
+			case 1:
+				if b > 0 {
+					return b - 1
+				}
+				return b
+			case 2:
+				if b < 0x10FFFF {
+					return b + 1
+				}
+				return b
+			}
+			return rune(grng.Intn(0x110000))
+		}
+		for i := 0; i < ng; i++ {
+			var sb strings.Builder
+			sb.WriteString("[")
+			if grng.Intn(5) == 0 {
+				sb.WriteString("^")
+			}
+			for k := 1 + grng.Intn(4); k > 0; k-- {
+				a, b := pick(), pick()
+				if a > b {
+					a, b = b, a
+				}
+				if grng.Intn(3) == 0 {
+					b = a + rune(grng.Intn(300)) // small ranges: the literal-alternation path (at most 256 runes)
+					if b > 0x10FFFF {
+						b = 0x10FFFF
+					}
+				}
+				fmt.Fprintf(&sb, `\x{%x}-\x{%x}`, a, b)
+			}
+			sb.WriteString("]")
+			if isClass(sb.String()) {
+				cls = append(cls, sb.String())
+			}
+		}
+		for ci, c := range cls {
+			rs, ok := classRanges(c)
+			if !ok || len(rs) == 0 {
+				continue
+			}
+			cfg := nfa.CompilerConfig{UTF8: true, MaxRecursionDepth: 100}
+			mode := "default"
+			if ci%3 == 1 {
+				cfg.UseRuneStates = true
+				mode = "sparse-dot"
+			}
+			var n *nfa.NFA
+			if guard(20*time.Second, func() string {
+				var err error
+				n, err = nfa.NewCompiler(cfg).Compile(c)
+				if err != nil {
+					return "ERR"
+				}
+				return ""
+			}) != "" || n == nil {
+				continue
+			}
+			pins = append(pins, pinst{c, mode, fmt.Sprintf("utf8range nfa %s %s", rangesArg(rs), dumpNFA(n))})
+		}
+		var preqs []string
+		for _, q := range pins {
+			preqs = append(preqs, q.req)
+		}
+		pans, err := RunLean(preqs)
+		if err != nil || len(pans) != len(preqs) {
+			r.Violate(fmt.Sprintf("Lean driver failed on the class-compiler tie: %v", err), map[string]any{"correspondence": "C15 class compiler model"}, true)
+		} else {
+			for i, q := range pins {
+				tp.Cases++
+				r.Case("paths\x00"+q.cls+"\x00"+q.mode, true)
+				if pans[i] == "ok" {
+					continue
+				}
+				tp.Disagreements++
+				// the model no longer describes the compiler: look for a concrete input on which the automaton is wrong
+				w, found := classWitness(q.cls)
+				what := fmt.Sprintf("class %s (%s mode): the automaton emitted by the compiler is not the one the Lean transliteration of compileCharClass predicts (%.80s)", q.cls, q.mode, pans[i])
+				if found {
+					what += fmt.Sprintf("; failing input %q: coregex and regexp disagree on ^(?:%s)$", w, q.cls)
+				}
+				r.Violate(what, map[string]any{"class": q.cls, "mode": q.mode, "model_answer": pans[i], "request": q.req, "witness_hex": hexOf(w),
+					"correspondence": "Cx.Utf8Range.classSeqs vs nfa.Compiler (compileCharClass)"}, !found)
+			}
+		}
+	}
 	r.Exhaustive = true
 	if len(insts) > 0 {
 		r.Sample(map[string]any{"class": insts[0].cls, "mode": insts[0].mode, "ranges": insts[0].ranges, "checker": ans[0]})
 		r.Sample(map[string]any{"class": insts[len(insts)/2].cls, "mode": insts[len(insts)/2].mode, "checker": ans[len(insts)/2]})
 	}
 	replayKnownExamples(r, known, "C15")
+}
+
+// classWitness searches for a byte string on which coregex and regexp disagree for ^(?:cls)$: the encodings of the runes
+// at and next to every range boundary of the class, raw surrogate encodings, overlong forms, lone lead/continuation bytes.
+func classWitness(cls string) ([]byte, bool) {
+	pat := `^(?:` + cls + `)$`
+	std, err := regexp.Compile(pat)
+	if err != nil {
+		return nil, false
+	}
+	cx, err := coregex.Compile(pat)
+	if err != nil {
+		return nil, false
+	}
+	var cands [][]byte
+	rs, _ := classRanges(cls)
+	enc := func(r rune) []byte {
+		if r < 0 || r > 0x10FFFF {
+			return nil
+		}
+		if r >= 0xD800 && r <= 0xDFFF { // raw three-byte form (ill-formed)
+			return []byte{0xE0 | byte(r>>12), 0x80 | byte(r>>6)&0x3F, 0x80 | byte(r)&0x3F}
+		}
+		return utf8.AppendRune(nil, r)
+	}
+	for _, rg := range rs {
+		for _, b := range []rune{rg[0], rg[1]} {
+			for d := rune(-2); d <= 2; d++ {
+				if e := enc(b + d); e != nil {
+					cands = append(cands, e)
+				}
+			}
+		}
+	}
+	for _, b := range []rune{0x7F, 0x80, 0x7FF, 0x800, 0xFFF, 0x1000, 0xCFFF, 0xD000, 0xD7FF, 0xD800, 0xDBFF, 0xDFFF, 0xE000, 0xFFFF, 0x10000, 0x3FFFF, 0x40000, 0xFFFFF, 0x100000, 0x10FFFF} {
+		cands = append(cands, enc(b))
+	}
+	cands = append(cands, []byte{0xC0, 0x80}, []byte{0xC1, 0xBF}, []byte{0xE0, 0x80, 0x80}, []byte{0xE0, 0x9F, 0xBF}, []byte{0xF0, 0x80, 0x80, 0x80}, []byte{0xF0, 0x8F, 0xBF, 0xBF},
+		[]byte{0xF4, 0x90, 0x80, 0x80}, []byte{0xF5, 0x80, 0x80, 0x80}, []byte{0x80}, []byte{0xBF}, []byte{0xC3}, []byte{0xFF}, []byte{0xE4, 0xB8}, []byte{0xF0, 0x9F, 0x98})
+	for _, w := range cands {
+		if std.Match(w) != cx.Match(w) {
+			return w, true
+		}
+	}
+	return nil, false
 }
